@@ -129,16 +129,43 @@ def devsOK (file : List Message) : Bool :=
   let ds := descsOf file
   ds.all descScopeB && nodupB (ds.map (·.name)) && nodupB (ds.map fun d => (d.devIdx, d.num)) && devsWalk [] file
 
+/-- what a message is expected to come back as (as written, before the decoder expands components again): without its
+expanded component fields and — unless verbose — without unknown fields; nothing for an unknown message unless verbose,
+and nothing if no field is left -/
+def expectedMesg (o : Opts) (m : Message) : Option Message :=
+  if !o.verbose && isUnknownMesg m.num then none else
+  let fs := m.fields.filter fun f => !f.isExpanded && (o.verbose || !isUnknownField m f)
+  if fs.isEmpty && m.devFields.isEmpty then none else some { m with fields := fs }
+
+def expected (o : Opts) (files : List (List Message)) : List (List Message) := files.map (·.filterMap (expectedMesg o))
+
+/-- the encoder's validator, which `CSVToFITConv` hands every sequence to, asks for the developer data index of a
+developer field to be announced by a developer_data_id message EARLIER IN THE SAME SEQUENCE: the indexes collected from
+the messages that come back (`expectedMesg`), message by message -/
+def idsWalkB (o : Opts) : List Nat → List Message → Bool
+  | _, [] => true
+  | ids, m :: ms =>
+    match expectedMesg o m with
+    | some m' =>
+      let ids' := if m'.num == mnDeveloperDataId then ids ++ [u8Of (fvalFirst m'.fields 3)] else ids
+      m'.devFields.all (fun d => ids'.contains d.devIdx) && idsWalkB o ids' ms
+    | none => idsWalkB o ids ms
+
+/-- what the encoder's gate needs beyond well-typed values: something of the file comes back (an empty sequence is an
+encoder error), developer data indexes announced -/
+def gateScopeB (o : Opts) (file : List Message) : Bool :=
+  !(file.filterMap (expectedMesg o)).isEmpty && idsWalkB o [] file
+
 /-- `CsvUnambiguous`: every file starts with its only file_id; every message as `mesgScopeB` (field values as the
 decoder produces them and in its normal form, strings within the safe alphabet, arrays non-empty, field numbers distinct,
-expanded flags = component targets); developer fields as `devsOK`; no position in degrees (arithmetic) -/
+expanded flags = component targets); developer fields as `devsOK`; what the encoder's gate needs (`gateScopeB`); no position in degrees (arithmetic) -/
 def csvUnambiguousB (o : Opts) (files : List (List Message)) : Bool :=
   !o.degrees &&
   files.all fun file =>
     (match file with
      | m :: rest => m.num == mnFileId && rest.all (·.num != mnFileId)
      | [] => false) &&
-    file.all mesgScopeB && devsOK file
+    file.all mesgScopeB && devsOK file && gateScopeB o file
 
 /-- which conjunct of `csvUnambiguousB` fails first (evidence: the driver counts the reasons) -/
 def csvScopeWhy (o : Opts) (files : List (List Message)) : String :=
@@ -150,17 +177,8 @@ def csvScopeWhy (o : Opts) (files : List (List Message)) : String :=
   if !(files.all fun file => file.all targetsExact) then "targets" else
   if !(files.all fun file => (descsOf file).all descScopeB) then "desc" else
   if !(files.all fun file => nodupB ((descsOf file).map (·.name)) && nodupB ((descsOf file).map fun d => (d.devIdx, d.num))) then "desc-dup" else
-  if !(files.all fun file => devsWalk [] file) then "dev-field" else "in"
-
-/-- what a message is expected to come back as (as written, before the decoder expands components again): without its
-expanded component fields and — unless verbose — without unknown fields; nothing for an unknown message unless verbose,
-and nothing if no field is left -/
-def expectedMesg (o : Opts) (m : Message) : Option Message :=
-  if !o.verbose && isUnknownMesg m.num then none else
-  let fs := m.fields.filter fun f => !f.isExpanded && (o.verbose || !isUnknownField m f)
-  if fs.isEmpty && m.devFields.isEmpty then none else some { m with fields := fs }
-
-def expected (o : Opts) (files : List (List Message)) : List (List Message) := files.map (·.filterMap (expectedMesg o))
+  if !(files.all fun file => devsWalk [] file) then "dev-field" else
+  if !(files.all fun file => gateScopeB o file) then "gate" else "in"
 
 /-! ### classes of the known findings -/
 
